@@ -63,8 +63,19 @@ def gen_container(r, f, rows, cols, flavour=None):
             wl = sorted(r.sample(range(300, 900, 50), 2))
             srcs.append({"nref": nref, "wl": wl, "x": [dy(r) for _ in range(nref)], "y": [dy(r) for _ in range(nref)],
                          "weight": [dy(r) for _ in range(nref)], "flux": [dy(r) for _ in range(nref * 2)]})
-        return {"sources": srcs}
+        out = {"sources": srcs}
+        if flavour and flavour.startswith("tree:"):
+            parts = flavour.split(":")
+            # the sources under /list carry their own `ref` / `wavelength` coordinates and variables named x / y: other
+            # groups stay clear of those names (an inherited coordinate named like a variable of a sub-group shadows
+            # it inside xarray's DataTree.to_dict - not a statement about pyxel's codec)
+            out["tree"] = gen_tree(r, parts[1], avoid=("/list",), dims=["k", "time", "k k", "z z"])
+            if parts[2:] == ["only"]:       # a scene that holds no source at all, only other groups
+                out["sources"] = []
+        return out
     if f == "data":
+        if flavour and flavour.startswith("tree:"):
+            return {"tree": gen_tree(r, flavour[5:])}
         nodes = []
         names = ["/stat", "/foo/bar", "/foo/baz", "/a_b/c-d"]
         if flavour == "hash":
@@ -73,6 +84,235 @@ def gen_container(r, f, rows, cols, flavour=None):
             nodes.append({"path": p, "vals": [dy(r) for _ in range(r.choice([1, 2, 3]))], "var": r.choice(["v", "mean"])})
         return {"nodes": nodes}
     raise ValueError(f)
+
+
+
+# ---- trees (processed data `detector.data`, and extra groups of `detector.scene.data`) -----------------------------
+# A tree spec is {"root": GROUP | None, "groups": [GROUP with "path"]}; GROUP = {"attrs", "vars", "coords"};
+# a variable is {"name", "dims", "shape", "dtype", "vals", "attrs"} (harness/drivers/c18.py builds it with xarray).
+# Dimension sizes are global per tree and an index coordinate of a dimension is defined in at most one group, so that
+# every generated tree is a VALID DataTree (children align with what they inherit).
+
+GROUP_NAMES = ["stat", "foo", "bar", "a_b", "c-d", "x.y", "0", "a b", "été", "snr", "prov", ".h", "Z", "list", "data"]
+VAR_NAMES = ["v", "mean", "var", "v w", "k#", "µ", "flux", "_"]
+DIM_NAMES = ["k", "time", "x", "y", "k k", "wavelength"]
+DEFAULT_DTYPES = ["float64", "int64", "bool", "complex128", "str", "datetime64[us]"]      # survive Dataset.to_dict()
+NARROW_DTYPES = ["int32", "uint8", "uint16", "int8", "uint64", "float32", "float16", "complex64", "datetime64[ns]",
+                 "datetime64[s]"]
+SPECIAL_FLOATS = ["nan", "inf", "-inf", "-0.0"]
+
+
+def gen_vals(r, dt, n, special=False):
+    if dt.startswith("float"):
+        return [(r.choice(SPECIAL_FLOATS) if special and r.random() < 0.4 else dy(r, -32, 64)) for _ in range(n)]
+    if dt.startswith("complex"):
+        return [[dy(r, -8, 8), (r.choice(SPECIAL_FLOATS) if special and r.random() < 0.3 else dy(r, -8, 8))] for _ in range(n)]
+    if dt == "bool":
+        return [r.randrange(2) for _ in range(n)]
+    if dt == "str":
+        return [r.choice(["", "a", "ab", "x y", "#", "/", "é"]) for _ in range(n)]
+    if dt.startswith("datetime64"):
+        return [86400 * 10 ** 9 * r.randrange(0, 20000) for _ in range(n)]      # whole days: exact in every unit
+    if dt.startswith("uint"):
+        return [r.randrange(0, 100) for _ in range(n)]
+    if dt == "int64":
+        return [r.choice([r.randrange(-50, 50), 2 ** 53 + 1, -2 ** 62]) if r.random() < 0.1 else r.randrange(-50, 50) for _ in range(n)]
+    return [r.randrange(-50, 50) for _ in range(n)]
+
+
+def gen_attrs(r, k=None):
+    pool = [("long_name", "Statistics"), ("units", "e-"), ("run_id", 42), ("scale", 0.25), ("flag", True), ("none", None),
+            ("levels", [1, 2, 3]), ("mix", [1, 2.5, "s"]), ("empty", ""), ("a/b", 1), ("c#d", "x#y"), ("neg", -3),
+            ("ü", "ä"), ("nested", [[1, 2], [3]]), ("title", "a 'quoted' \"name\"")]
+    return dict(r.sample(pool, k if k is not None else r.choice([1, 1, 2, 3])))
+
+
+class TreeGen:
+    def __init__(self, r, dtypes=None, special=False, zero=False, dims=None):
+        self.r, self.special = r, special
+        self.dims = dims or DIM_NAMES
+        self.dtypes = dtypes or DEFAULT_DTYPES
+        self.size = {}
+        self.indexed = set()
+        self.zero = zero
+
+    def dim(self, name):
+        if name not in self.size:
+            self.size[name] = self.r.choice([1, 2, 2, 3])
+        return self.size[name]
+
+    def var(self, name, dims, dtype=None, attrs=None):
+        dtype = dtype or self.r.choice(self.dtypes)
+        shape = [self.dim(d) for d in dims]
+        n = 1
+        for x in shape:
+            n *= x
+        return {"name": name, "dims": list(dims), "shape": shape, "dtype": dtype,
+                "vals": gen_vals(self.r, dtype, n, self.special), "attrs": attrs or {}}
+
+    def index_coord(self, d, attrs=None):
+        """an index coordinate for dimension d (None if one exists already somewhere in the tree)."""
+        if d in self.indexed:
+            return None
+        self.indexed.add(d)
+        n = self.dim(d)
+        dt = self.r.choice(["float64", "int64", "float64", "str"])
+        start = self.r.randrange(0, 8)
+        vals = {"float64": [start / 2 + i for i in range(n)], "int64": [start + 2 * i for i in range(n)],
+                "str": [f"l{start + i}" for i in range(n)]}[dt]
+        return {"name": d, "dims": [d], "shape": [n], "dtype": dt, "vals": vals, "attrs": attrs or {}}
+
+    def group(self, path, kind):
+        """kind: vars | coords_only | attrs_only | empty | mixed"""
+        r = self.r
+        g = {"path": path, "attrs": {}, "vars": [], "coords": []}
+        if kind in ("vars", "mixed"):
+            names = r.sample(VAR_NAMES, r.choice([1, 1, 2, 3]))
+            for nm in names:
+                nd = r.choice([0, 1, 1, 1, 2, 3]) if kind == "mixed" else r.choice([1, 1, 2])
+                dims = r.sample(self.dims, nd)
+                g["vars"].append(self.var(nm, dims, attrs=gen_attrs(r) if r.random() < 0.3 else None))
+            for d in {d for v in g["vars"] for d in v["dims"]}:
+                if r.random() < 0.5:
+                    c = self.index_coord(d, gen_attrs(r, 1) if r.random() < 0.3 else None)
+                    if c:
+                        g["coords"].append(c)
+            if r.random() < 0.25 and g["vars"] and g["vars"][0]["dims"]:
+                d = g["vars"][0]["dims"][0]        # a non-index coordinate along an existing dimension, and a scalar one
+                g["coords"].append(self.var("lab_" + d.replace(" ", ""), [d], dtype=r.choice(["str", "int64", "bool"])))
+            if r.random() < 0.15:
+                g["coords"].append(self.var("ref_value", [], dtype="float64", attrs=gen_attrs(r, 1)))
+            if r.random() < 0.4:
+                g["attrs"] = gen_attrs(r)
+        elif kind == "coords_only":
+            for d in r.sample(self.dims, r.choice([1, 1, 2])):
+                c = self.index_coord(d, gen_attrs(r, 1) if r.random() < 0.4 else None)
+                g["coords"].append(c if c else self.var("c_" + d.replace(" ", ""), [d], dtype="float64"))
+            if r.random() < 0.5:
+                g["attrs"] = gen_attrs(r)
+        elif kind == "attrs_only":
+            g["attrs"] = gen_attrs(r, r.choice([1, 2, 3]))
+        return g
+
+
+def rand_path(r, depth=None, under=None):
+    depth = depth or r.choice([1, 1, 2, 2, 3, 4])
+    return (under or "") + "/" + "/".join(r.choice(GROUP_NAMES) for _ in range(depth))
+
+
+def gen_tree(r, flavour=None, avoid=(), dims=None):
+    """A tree spec.  flavours: the structural classes named by the property (each is a separate, pure class so that a
+    failure is attributed to ONE cause); None = random composition over default dtypes."""
+    flavour = flavour or "random"
+    tg = TreeGen(r, dims=dims)
+    groups, root = [], None
+    if flavour == "coord_only_parent":
+        # a parent that only defines the coordinate shared by its sub-groups (+ attributes on it)
+        p = "/" + r.choice(["stat", "foo", "a b"])
+        d = r.choice(["time", "k"])
+        par = {"path": p, "attrs": gen_attrs(r, 1) if r.random() < 0.6 else {}, "vars": [], "coords": [tg.index_coord(d, gen_attrs(r, 1))]}
+        groups = [par, {"path": p + "/pix", "attrs": {}, "coords": [], "vars": [tg.var("mean", [d], "float64"), tg.var("var", [d], "float64")]},
+                  {"path": p + "/sig", "attrs": {}, "coords": [], "vars": [tg.var("mean", [d, "x"], "float64")]}]
+    elif flavour == "attr_only":
+        groups = [tg.group(rand_path(r, r.choice([1, 2])), "attrs_only")]
+        if r.random() < 0.5:
+            groups.append(tg.group("/ctl", "vars"))
+    elif flavour == "empty_leaf":
+        groups = [tg.group("/a", "vars"), {"path": "/a/empty", "attrs": {}, "vars": [], "coords": []}]
+        if r.random() < 0.5:
+            groups.append({"path": "/lonely", "attrs": {}, "vars": [], "coords": []})
+    elif flavour == "deep":
+        groups = [tg.group(rand_path(r, r.choice([3, 4, 5])), r.choice(["vars", "attrs_only", "coords_only"]))]
+    elif flavour == "root":
+        root = tg.group("/", r.choice(["vars", "attrs_only", "coords_only", "mixed"]))
+        groups = [tg.group("/child", r.choice(["vars", "empty"]))] if r.random() < 0.7 else []
+    elif flavour == "var_attrs":
+        g = tg.group("/a", "vars")
+        for v in g["vars"]:
+            v["attrs"] = gen_attrs(r)
+        c = tg.index_coord(g["vars"][0]["dims"][0], gen_attrs(r, 2))
+        if c:
+            g["coords"].append(c)
+        groups = [g]
+    elif flavour == "names":
+        g = tg.group("/" + r.choice(["a b", "été", ".h", "0", "x.y", "c-d"]) + "/" + r.choice(["a b", "été", "Z", "0"]), "vars")
+        g["vars"].append(tg.var("", ["k k"], "float64"))
+        g["vars"].append(tg.var("#", ["µ"], "float64"))
+        groups = [g]
+    elif flavour == "zero":
+        tg.size["z"] = 0
+        groups = [{"path": "/a", "attrs": {}, "coords": [], "vars": [tg.var("scalar", [], "float64"), tg.var("iscalar", [], "int64"),
+                                                                     tg.var("bscalar", [], "bool"), tg.var("sscalar", [], "str"),
+                                                                     tg.var("none", ["z"], "float64"), tg.var("one", ["o"], "float64"),
+                                                                     tg.var("none2", ["k", "z"], "float64")]}]
+    elif flavour == "dtypes":
+        groups = [{"path": "/a", "attrs": {}, "coords": [], "vars": [tg.var("v_" + dt.split("[")[0], ["k"] if i % 2 else ["k", "x"], dt)
+                                                                     for i, dt in enumerate(DEFAULT_DTYPES)]}]
+    elif flavour == "special_floats":
+        tg.special = True
+        tg.size["k"] = 3
+        groups = [{"path": "/a", "attrs": {}, "coords": [], "vars": [tg.var("v", ["k"], "float64"), tg.var("c", ["k"], "complex128")]}]
+    elif flavour == "narrow_dtype":        # known defect class: the dtype of a variable is not stored
+        dt = r.choice(NARROW_DTYPES)
+        groups = [{"path": "/a", "attrs": {}, "coords": [], "vars": [tg.var("v", ["k"], dt)]}]
+    elif flavour == "zero_len_nonfloat":   # same defect: [] carries no dtype
+        tg.size["z"] = 0
+        groups = [{"path": "/a", "attrs": {}, "coords": [], "vars": [tg.var("v", ["z"], r.choice(["int64", "bool", "str", "complex128"]))]}]
+    elif flavour == "zero_size_nd":        # same defect: [] carries no shape either
+        tg.size["z"] = 0
+        groups = [{"path": "/a", "attrs": {}, "coords": [], "vars": [tg.var("v", r.choice([["z", "k"], ["z", "k", "x"], ["k", "z", "x"]]), "float64")]}]
+    elif flavour == "shared_dims":
+        d = r.choice(["time", "k"])
+        par = tg.group("/p", "vars")
+        par["vars"].append(tg.var("pv", [d], "float64"))
+        c = tg.index_coord(d)
+        if c:
+            par["coords"].append(c)
+        groups = [par, {"path": "/p/c", "attrs": {}, "coords": [], "vars": [tg.var("cv", [d, "x"], "float64"), tg.var("cw", ["x", d], "int64")]},
+                  {"path": "/p/c/gc", "attrs": {}, "coords": [], "vars": [tg.var("gv", [d], "bool")]}]
+    elif flavour == "dim_order":
+        groups = [{"path": "/a", "attrs": {}, "coords": [], "vars": [tg.var("v", ["x", "y"], "float64"), tg.var("w", ["y", "x"], "float64"),
+                                                                     tg.var("u", ["y", "k", "x"], "int64")]}]
+    elif flavour == "hash":
+        groups = [tg.group("/a#b", "vars")]
+    else:       # random composition
+        paths = []
+        for _ in range(r.choice([1, 2, 3, 4])):
+            pth = rand_path(r, under=r.choice(paths) if paths and r.random() < 0.4 else None)
+            if pth not in paths:
+                paths.append(pth)
+        for pth in paths:
+            groups.append(tg.group(pth, r.choice(["vars", "vars", "mixed", "coords_only", "attrs_only", "empty"])))
+        if r.random() < 0.3:
+            root = tg.group("/", r.choice(["attrs_only", "vars", "coords_only"]))
+    if avoid:
+        groups = [g for g in groups if not any(g["path"] == a or g["path"].startswith(a + "/") for a in avoid)]
+    for g in ([root] if root else []) + groups:
+        g["coords"] = [c for c in g["coords"] if c]
+    return {"flavour": flavour, "root": root, "groups": groups}
+
+
+TREE_FLAVOURS = ["coord_only_parent", "attr_only", "empty_leaf", "deep", "root", "var_attrs", "names", "zero", "dtypes",
+                 "special_floats", "shared_dims", "dim_order", "random"]
+TREE_DEFECT_FLAVOURS = ["narrow_dtype", "zero_len_nonfloat", "zero_size_nd"]
+
+
+def tree_vars(tree):
+    for g in ([tree["root"]] if tree.get("root") else []) + list(tree.get("groups", [])):
+        for v in list(g.get("vars", [])) + list(g.get("coords", [])):
+            yield g, v
+
+
+def tree_class(tree):
+    """the input class of a tree spec, w.r.t. the classes for which the unchanged codec is known to lose something."""
+    if any("#" in g["path"] for g in tree.get("groups", [])):
+        return "hash_in_group_name"
+    # a length-0 dimension that is not the last one: the nested list has fewer levels than the variable has dims
+    if any(0 in v["shape"] and v["shape"].index(0) < len(v["shape"]) - 1 for _, v in tree_vars(tree)):
+        return "tree_zero_size_nd"
+    if any(v["dtype"] not in DEFAULT_DTYPES or (0 in v["shape"] and v["dtype"] != "float64") for _, v in tree_vars(tree)):
+        return "tree_dtype_not_default"
+    return "plain"
 
 
 def fields_of(kind):
@@ -122,6 +362,15 @@ def structured_cases(ctx: Ctx, r):
             cases.append({"route": route, "spec": make_spec(r, kind, ["charge_array", "charge_frame"])})
             cases.append({"route": route, "spec": make_spec(r, kind, ["charge_frame"], {"charge_frame": "relabel"})})
             cases.append({"route": route, "spec": make_spec(r, kind, ["data"], {"data": "hash"})})
+            # trees: every structural class the property text names, for the processed data and for the scene
+            allfl = TREE_FLAVOURS + TREE_DEFECT_FLAVOURS
+            for j, fl in enumerate(allfl):
+                # the variable-less-group classes for every (type, route); the other classes alternate over (type, route)
+                if fl in ("coord_only_parent", "attr_only", "empty_leaf", "root") or ctx.tier != "quick" \
+                        or (j + KINDS.index(kind) + (route == "dict")) % 2 == 0:
+                    cases.append({"route": route, "spec": make_spec(r, kind, ["data"], {"data": "tree:" + fl})})
+            for fl in ("coord_only_parent", "attr_only", "empty_leaf", "random", "root", "narrow_dtype"):
+                cases.append({"route": route, "spec": make_spec(r, kind, ["scene"], {"scene": "tree:" + fl + (":only" if fl in ("attr_only", "root") else "")})})
         # the explicit entry points
         cases.append({"route": "asdf", "save": "to_asdf", "load": "from_asdf", "spec": make_spec(r, kind, fs[:4])})
         cases.append({"route": "asdf", "load": "class_load", "spec": make_spec(r, kind, fs[:4])})
@@ -135,8 +384,11 @@ def random_cases(ctx: Ctx, r, n):
         fs = fields_of(kind)
         present = [f for f in fs if r.random() < 0.5]
         fl = {}
-        if "data" in present and r.random() < 0.08:
-            fl["data"] = "hash"
+        if "data" in present:
+            u = r.random()
+            fl["data"] = "hash" if u < 0.06 else ("tree:" + r.choice(TREE_FLAVOURS + ["random"] * 4) if u < 0.8 else None)
+        if "scene" in present and r.random() < 0.5:
+            fl["scene"] = "tree:" + r.choice(["random", "random", "attr_only", "coord_only_parent", "empty_leaf", "deep"])
         cases.append({"route": "asdf" if i % 3 else "dict", "spec": make_spec(r, kind, present, fl)})
     return cases
 
@@ -257,14 +509,73 @@ def diff_fields(o, b):
             aspect = None
             if f == "charge_frame" and x["c"] == y["c"] and x["i"] != y["i"]:
                 aspect = "row_labels_only"
+            if x["k"] == "keyed" and y["k"] == "keyed":
+                aspect = keyed_aspect(x["m"], y["m"])
             out.append((f, "changed", aspect))
     return out
+
+
+def _dt_class(dt):
+    """the dtype a list of Python numbers comes back with (what is left of a dtype when only the values are stored)."""
+    import re
+
+    if re.fullmatch(r"u?int\d+", dt):
+        return "int64"
+    if re.fullmatch(r"float\d+", dt):
+        return "float64"
+    if re.fullmatch(r"complex\d+", dt):
+        return "complex128"
+    if dt.startswith("datetime64"):
+        return "datetime64"
+    return dt
+
+
+def keyed_aspect(xm, ym):
+    """How two path -> items maps differ (report / signature only; the verdict was computed in Coq):
+    groups_lost | groups_gained | group_content_lost (an entry of a group that is still there is gone) |
+    dtype_only (same names, dims, shapes and values; only dtype names differ, each within its value class, or a
+    zero-length variable came back float64) | content_changed | mixed."""
+    X, Y = {k: v for k, v in xm}, {k: v for k, v in ym}
+    kinds = set()
+    if set(X) - set(Y):
+        kinds.add("groups_lost")
+    if set(Y) - set(X):
+        kinds.add("groups_gained")
+    for k in set(X) & set(Y):
+        if X[k] == Y[k]:
+            continue
+        a, b = {lab: arr for lab, arr in X[k]}, {lab: arr for lab, arr in Y[k]}
+        if set(a) - set(b):
+            kinds.add("group_content_lost")
+        if set(b) - set(a):
+            kinds.add("group_content_gained")
+        for lab in set(a) & set(b):
+            u, v = a[lab], b[lab]
+            if u == v:
+                continue
+            same_vals = u["sh"] == v["sh"] and u["v"] == v["v"]
+            if same_vals and (_dt_class(u["dt"]) == _dt_class(v["dt"]) or (0 in u["sh"] and v["dt"] == "float64")):
+                kinds.add("dtype_only")
+            else:
+                kinds.add("content_changed")
+    if len(kinds) == 1:
+        return next(iter(kinds))
+    return "mixed:" + "+".join(sorted(kinds)) if kinds else None
 
 
 def input_class(payload, f):
     init = payload["spec"].get("init", {})
     if f == "data" and any("#" in n["path"] for n in (init.get("data") or {}).get("nodes", [])):
         return "hash_in_group_name"
+    if f in ("data", "scene") and (init.get(f) or {}).get("tree"):
+        return tree_class(init[f]["tree"])
+    if f == "*":        # the whole reload failed: the first non-plain class among the initialised containers
+        for g in ("data", "scene", "charge_frame", "photon"):
+            if init.get(g) is not None:
+                c = input_class(payload, g)
+                if c != "plain" and not c.startswith("photon_"):
+                    return c
+        return "plain"
     if f == "charge_frame" and (init.get("charge_frame") or {}).get("remove") is not None:
         return "relabelled_rows"
     if f == "photon" and init.get("photon"):
@@ -288,8 +599,11 @@ def violations_of(ctx, payload, obs, label):
     if payload["route"] in ("dict", "asdf"):
         back = obs["back"]
         if "raise" in back:
-            sig = dict(clause="roundtrip", kind=kind, route=payload["route"], field="*", effect="raises:" + back["raise"])
-            vs.append(Violation("roundtrip", payload, back, "the saved detector", f"{kind} via {payload['route']}: reload raises {back['raise']}: {back.get('msg', '')}", sig))
+            sig = dict(clause="roundtrip", kind=kind, route=payload["route"], field="*", effect="raises:" + back["raise"],
+                       input_class=input_class(payload, "*"), stage=back.get("stage", "?"))
+            v = Violation("roundtrip", payload, back, "the saved detector",
+                          f"{kind} via {payload['route']}: {back.get('stage', 'save/load')} raises {back['raise']}: {back.get('msg', '')}", sig)
+            vs.append(v)
             return vs
         for f, effect, aspect in diff_fields(obs["orig"], back):
             sig = dict(clause="roundtrip", kind=kind, route=payload["route"], field=f, effect=effect,
@@ -398,7 +712,9 @@ def correspondence(ctx: Ctx, payloads, tag="c"):
 
 def nontrivial_key(p):
     init = p["spec"].get("init", {})
-    return (p["route"], p["spec"]["kind"], tuple(sorted(init)), (init.get("photon") or {}).get("mode"))
+    trees = tuple(json.dumps((init.get(f) or {}).get("tree"), sort_keys=True) if isinstance(init.get(f), dict) else None
+                  for f in ("data", "scene"))
+    return (p["route"], p["spec"]["kind"], tuple(sorted(init)), (init.get("photon") or {}).get("mode"), trees)
 
 
 def account(ctx, units):
@@ -412,6 +728,17 @@ def account(ctx, units):
         ctx.dist("n_initialised", len(p["spec"].get("init", {})))
         for f in p["spec"].get("init", {}):
             ctx.dist("container", f + (":" + p["spec"]["init"][f]["mode"] if f == "photon" else ""))
+            tr = (p["spec"]["init"][f] or {}).get("tree") if f in ("data", "scene") else None
+            if tr:
+                ctx.dist("tree_flavour", f + ":" + tr.get("flavour", "?"))
+                gs = ([tr["root"]] if tr.get("root") else []) + tr["groups"]
+                ctx.dist("tree_depth", max([g["path"].count("/") for g in tr["groups"]] + [0]))
+                for g in gs:
+                    ctx.dist("tree_group_kind", "vars" if g["vars"] else "coords_only" if g["coords"] else
+                             "attrs_only" if g["attrs"] else "empty")
+                for _, v in tree_vars(tr):
+                    ctx.dist("tree_var_dtype", v["dtype"])
+                    ctx.dist("tree_var_ndim", len(v["shape"]))
         if p["spec"].get("init"):
             seen.add(nontrivial_key(p))
 
